@@ -38,6 +38,14 @@ def run(ctx):
         lim, off = LIMOFFS[(n + 3) % len(LIMOFFS)]
         q = dict(**{"from": fs}, where=[], list=jl[lg]["list"], group=jl[lg]["group"], order=[], limit=lim, offset=off, style=n % 8)
         cases.append(dict(db={"t7": tables[t]}, q=q, _t=("j", t)))
+    # text grouping values that are easily confused when keys are written side by side (NULL / empty string, separator characters)
+    tg = sets["tablesgrp7"]
+    uv_lgs = [x for x in lgs if x["group"] and all(g["c"] in ("u", "v") for g in x["group"]) and all(it["k"] != "col" or it["alias"] == "" for it in x["list"])]
+    if not uv_lgs:
+        raise vlib.Undecided("no select list groups by the text columns")
+    for n, (t, lg) in enumerate(semlib.cover_product(rng, [tg, uv_lgs], N[ctx.tier] // 3)):
+        q = dict(**{"from": FROM7}, where=[], list=uv_lgs[lg]["list"], group=uv_lgs[lg]["group"], order=[], limit=-1, offset=-1, style=n % 8)
+        cases.append(dict(db={"t7": tg[t]}, q=q, _t=("grp", t)))
     # many groups (more than any fixed-size scratch structure an implementation may keep between statements), and the same
     # statements again afterwards in the same process: 150-260 distinct values in p, three in q
     def cell(t, v=0, s=()):
@@ -56,19 +64,19 @@ def run(ctx):
                 cases.append(dict(db={"t7": tab}, q=q, _t=("many", b)))
     pool = vlib.WorkerPool(ctx, binary)
     try:
-        semlib.execute(ctx, pool, cases, lambda c: c["_t"])
+        semlib.execute(ctx, pool, cases, lambda c: c["_t"], history=random.Random(ctx.seed + 7))
     finally:
         pool.close()
     big = many_groups(ctx, binary, rng)
     report(ctx, cases, "C07", "c07", extra_cov=dict(many_groups=big))
 
 
-BIG_N = {"quick": 150000, "thorough": 400000}
+BIG_N = {"quick": 100000, "thorough": 400000}
 
 
 def many_groups(ctx, binary, rng):
     """Tables in which every row is a group of its own, 10^5 of them (an implementation that identifies a group by a
-    32-bit digest of its key merges two of 150 000 groups with probability 0.93 per grouping column - and there are two, integers and words -, of 400 000 with certainty): integer and
+    32-bit digest of its key merges two of 100 000 groups with probability 0.7 per grouping column - and there are two, integers and words -, of 400 000 with certainty): integer and
     string grouping values.  Judged by SqlSem!DistinctGroupsOK - ResultOK specialised to such tables, see SqlSem.tla -
     and small tables of the same shape are judged by both predicates, which must agree."""
     def cell(t, v=0, s=()):
